@@ -7,7 +7,8 @@
 // D: at every Observe px.CurrentContext() must be the context handed to the enclosing body, the state of that
 // context must be what its own goroutine's operations (plus the parent's before the fork) made it, and after the
 // case the number of goroutine-local tables must be what it was before.  Families: corpus, chains (all nestings of
-// scope constructs), forkstate (all container histories of the parent x all fork routes), random, and highgid
+// scope constructs), forkstate (all container histories of the parent x all fork routes), forkstack (all push/pop
+// histories of the parent x pop/push in the fork x pop/push in the parent while the fork lives x all fork routes), random, and highgid
 // (gid.go: the same programs and a direct check of threadlocal in a process whose goroutine ids have 6 -> 7 digits).
 // M: program, recorded schedule and per-goroutine traces go to cases_*.v; CorrC14.v runs the machine of
 // coq/Model/Ctx.v on the same schedule and compares the traces (ctx_machine), and evaluates the trace-level
@@ -154,6 +155,7 @@ func main() {
 		// stream shifted by one draw.  Hash the seed first so that different seeds give unrelated programs.
 		r.gidSamples(24, "after-chains")
 		r.forkStates("forkstate", 0, fsRoutes, 5, "cases_forkstate")
+		r.forkStacks()
 		r.gidSamples(24, "after-forkstate")
 		r.random(lib.NewRng(lib.NewRng(cfg.Seed).Next()))
 		r.gidSamples(24, "after-random")
